@@ -27,7 +27,7 @@ import itertools
 import random as _pyrandom
 
 from sx.runner import Unit
-from sx.proxies import sand, snot, const
+from sx.proxies import sand, snot, const, is_sym
 
 PROPERTY = "C01"
 
@@ -107,7 +107,8 @@ META = {
         "low bits (W = 2 where the unit says so) under a shared symbolic "
         "32-bit prefix P, the remaining 32-W mask bits set; the packet key "
         "(any 32-bit value matching its net), one packet per net; the "
-        "per-chip table targets (0..nets+1) in the target=sym units; in the "
+        "per-chip table targets (0..nets+1) in the target=sym units (on 3x3 "
+        "only for the three chips of the diagonal, None elsewhere); in the "
         "links=sym units the membership of every directed link of every "
         "working chip in machine.dead_links, at most one dead (in addition "
         "to a mesh's off-edge links and the device link); in the links=one "
@@ -261,10 +262,10 @@ class _Tie(object):
 
     def _cmp(self, o, op):
         if (isinstance(o, _Tie) and isinstance(self.base, int) and
-                isinstance(o.base, int) and self.val is None and
-                o.val is None):
+                isinstance(o.base, int)):
             a, b = self.base, o.base
-            if a == b == 0 and not self.rnd.zero_ties and self is not o:
+            if (a == b == 0 and not self.rnd.zero_ties and self is not o and
+                    self.val is None and o.val is None):
                 a, b = self.seq, o.seq
             if a != b:
                 # a + r1 < b + r2 for all r1, r2 in [0, 1) iff a < b
@@ -272,8 +273,18 @@ class _Tie(object):
                         "ge": a > b}[op]
         ov = o.value() if isinstance(o, _Tie) else o
         v = self.value()
-        return {"lt": lambda: v < ov, "le": lambda: v <= ov,
-                "gt": lambda: v > ov, "ge": lambda: v >= ov}[op]()
+        res = {"lt": lambda: v < ov, "le": lambda: v <= ov,
+               "gt": lambda: v > ov, "ge": lambda: v >= ov}[op]()
+        if self.rnd.spend() or not is_sym(res):
+            return res                  # bool(res) forks
+        # tie budget used up: take the first feasible outcome (a restriction
+        # of the random draws, stated in META)
+        ctx = self.rnd.ctx
+        if ctx.reachable(res):
+            ctx.assume(res)
+            return True
+        ctx.assume(snot(res))
+        return False
 
     def __lt__(self, o): return self._cmp(o, "lt")
     def __le__(self, o): return self._cmp(o, "le")
@@ -283,12 +294,27 @@ class _Tie(object):
 
 
 class TieRandom(object):
-    """Stands in for the module `random` inside the router."""
+    """Stands in for the module `random` inside the router.  `budget` is a
+    one-element list shared by the stubs of one mapping: the number of
+    undecided tie-breaks that may still be explored (None: all of them);
+    once it is used up every further tie-break takes its first feasible
+    outcome."""
 
-    def __init__(self, ctx, zero_ties=True):
+    def __init__(self, ctx, zero_ties=True, budget=None):
         self.ctx = ctx
         self.zero_ties = zero_ties
+        self.budget = budget if budget is not None else [None]
         self.draws = 0
+
+    def spend(self):
+        """True if this tie-break may be explored (same count in symbolic
+        and concrete mode)."""
+        if self.budget[0] is None:
+            return True
+        if self.budget[0] > 0:
+            self.budget[0] -= 1
+            return True
+        return False
 
     def random(self):
         self.draws += 1
@@ -296,10 +322,14 @@ class TieRandom(object):
 
     def randint(self, a, b):
         self.draws += 1
+        if b > a and not self.spend():
+            return a
         return a + self.ctx.choose(b - a + 1)
 
     def choice(self, seq):
         self.draws += 1
+        if len(seq) > 1 and not self.spend():
+            return seq[0]
         return seq[self.ctx.choose(len(seq))]
 
     def __getattr__(self, name):
@@ -375,7 +405,7 @@ def walk(ctx, tables, pk, src_chip, w, h, live, links, endpoint_links, tag):
 # ----------------------------------------------------------------------
 def h_e2e(ctx, graph, w, h, torus, placer, method, radius=20, target="none",
           links="none", deadchip="none", via="hand", dems=(0,), W=3, cap=3,
-          pin=False, exc=False, rng="all"):
+          pin=False, exc=False, rng="all", tb="all"):
     from rig.place_and_route.machine import Machine, Cores, SDRAM, SRAM
     from rig.place_and_route.constraints import (
         LocationConstraint, ReserveResourceConstraint,
@@ -506,8 +536,16 @@ def h_e2e(ctx, graph, w, h, torus, placer, method, radius=20, target="none",
     if target == "none":
         targets = None
     elif target == "sym":
-        targets = {c: ctx.int("target_%d_%d" % c, 0, len(nets) + 1)
+        # one symbolic target per chip; on machines of more than four chips
+        # only on the diagonal (every chip with a table multiplies the paths
+        # by the number of methods that can meet its target), None elsewhere
+        targets = {c: (ctx.int("target_%d_%d" % c, 0, len(nets) + 1)
+                       if (len(all_chips) <= 4 or c[0] == c[1]) else None)
                    for c in live}
+    elif target == "sym1":
+        # a symbolic target on the first working chip only, None elsewhere
+        targets = {c: (ctx.int("target_%d_%d" % c, 0, len(nets) + 1)
+                       if c == live[0] else None) for c in live}
     elif target == "n":
         targets = {c: len(nets) for c in live}
     else:
@@ -523,8 +561,9 @@ def h_e2e(ctx, graph, w, h, torus, placer, method, radius=20, target="none",
     methods = {"rdr": (rdr.minimise,), "oc": (oc.minimise,)}.get(method)
 
     saved = (geometry.random, rutils.random)
-    geometry.random = TieRandom(ctx)
-    rutils.random = TieRandom(ctx, zero_ties=False)
+    budget = [None if tb == "all" else int(tb)]
+    geometry.random = TieRandom(ctx, budget=budget)
+    rutils.random = TieRandom(ctx, zero_ties=False, budget=budget)
     try:
         try:
             if via == "hand":
@@ -570,7 +609,8 @@ def h_e2e(ctx, graph, w, h, torus, placer, method, radius=20, target="none",
                         largest_free_sdram_block=64,
                         largest_free_sram_block=16,
                         largest_free_rtr_mc_block=(
-                            1024 if targets is None else targets[c]),
+                            1024 if targets is None or targets[c] is None
+                            else targets[c]),
                         ethernet_up=(c == live[0]), ip_address="10.0.0.1",
                         local_ethernet_chip=live[0])
                 kw = {}
@@ -637,8 +677,9 @@ def h_e2e(ctx, graph, w, h, torus, placer, method, radius=20, target="none",
     # ---- tables fit their targets ----------------------------------------
     if targets is not None and method != "none" and via != "wrapper":
         for c, t in tables.items():
-            ctx.prove(len(t) <= targets[c], "table-exceeds-target",
-                      (c, len(t), targets[c]))
+            if targets[c] is not None:
+                ctx.prove(len(t) <= targets[c], "table-exceeds-target",
+                          (c, len(t), targets[c]))
     for c, t in tables.items():
         if not ctx.prove(c in live, "table-for-dead-chip", c):
             return
@@ -691,7 +732,7 @@ def h_e2e(ctx, graph, w, h, torus, placer, method, radius=20, target="none",
 # ----------------------------------------------------------------------
 DEFAULTS = dict(radius=20, target="none", links="none", deadchip="none",
                 via="hand", dems=(0,), W=3, cap=3, pin=0, exc=False,
-                rng="all")
+                rng="all", tb="all")
 
 
 def _name(p):
@@ -707,6 +748,8 @@ def _name(p):
         s += " exc"
     if p["rng"] != "all":
         s += " rng=%s" % p["rng"]
+    if p["tb"] != "all":
+        s += " tb=%s" % p["tb"]
     return s
 
 
@@ -725,8 +768,9 @@ def _fact(n):
 
 
 def _paths(p):
-    """Rough number of paths of a unit (product of the measured
-    multiplicities of its dimensions); keeps units at 10^2..10^3 paths."""
+    """Rough (pessimistic) number of paths of a unit: the product of the
+    measured multiplicities of its dimensions.  Used to keep units at
+    10^2..10^3 paths and to choose where a unit is split."""
     q = dict(DEFAULTS)
     q.update(p)
     p = q
@@ -738,21 +782,26 @@ def _paths(p):
     free = max(0, nv - ndev - int(p["pin"]))
     costly = p["method"] in ("oc", "chain") and p["via"] != "wrapper"
     n = 1.0
-    # symbolic keys: equal-mask partitions (rdr), generality/merge cases (oc)
+    # symbolic keys: equal-mask partitions (rdr), the case analysis of
+    # ordered covering (at worst one path per key/mask configuration)
     if costly:
-        if nnets == 2:
-            n *= 37 if p["W"] == 3 else 8
+        if nchips == 1:
+            k = {(2, 2): 8, (2, 3): 40, (3, 2): 25, (3, 3): 620}
         else:
-            n *= 620 if p["W"] == 3 else 35
+            k = {(2, 2): 20, (2, 3): 150, (3, 2): 45, (3, 3): 1200}
+        n *= k[(nnets, p["W"])]
     elif p["method"] == "rdr" or p["via"] == "wrapper":
         n *= 2 if nnets == 2 else 5
-    if p["target"] == "sym" and p["method"] != "none":
-        if nchips == 1:
-            n *= 3
-        elif costly:
-            n *= 90 if p["W"] == 3 else 5
-        else:
-            n *= 10 if nnets == 2 else 25
+    if p["method"] != "none" and p["via"] != "wrapper":
+        if p["target"] == "sym":
+            if nchips == 1:
+                n *= 10 if costly else 3
+            elif costly:
+                n *= 50
+            else:
+                n *= 10 if nnets == 2 else 25
+        elif p["target"] == "sym1":
+            n *= 5
     n *= len(p["dems"])
     if p["deadchip"] == "any":
         n *= nchips + 1
@@ -770,7 +819,10 @@ def _paths(p):
     elif p["links"] == "one":
         n *= nlinks + 1
     if p["torus"] and nchips > 1:
-        n *= 4 if nchips <= 4 else 6          # router tie-breaks
+        t = 6 if nchips <= 4 else 40          # router tie-breaks
+        if p["tb"] != "all":
+            t = min(t, 2 ** int(p["tb"]))
+        n *= t
     if p["rng"] == "all":
         if p["placer"] == "rand" and nchips > 1:
             n *= 2.5 * nchips ** free
@@ -788,7 +840,7 @@ def _cost(p):
 
 
 def _combo(graph, w, h, torus, placer, method, seed=0, via="hand",
-           limit=600):
+           limit=800):
     """Parameters of the unit for one (graph, machine, placer, method)
     combination: the secondary dimensions are rotated by a stable hash and
     then shrunk, in a fixed order, until the estimated number of paths is
@@ -798,6 +850,7 @@ def _combo(graph, w, h, torus, placer, method, seed=0, via="hand",
     nchips = w * h
     ndev = max(pat.count("d") + pat.count("D") for pat in patterns)
     free = nv - ndev
+    costly = method in ("oc", "chain") and via != "wrapper"
     p = dict(DEFAULTS)
     p.update(graph=graph, w=w, h=h, torus=torus, placer=placer,
              method=method, via=via)
@@ -813,29 +866,40 @@ def _combo(graph, w, h, torus, placer, method, seed=0, via="hand",
     r //= 2
     one_dem = (r % 3,)
     r //= 3
-    p["dems"] = (0, 1, 2)
-    p["deadchip"] = "any" if nchips > 1 else "none"
-    if via == "pnr":
-        p["links"] = ("none", "one")[r % 2]
-    else:
-        p["links"] = ("none", "sym", "one")[r % 3]
+    lk = r % 6
     r //= 6
-    if method == "none" or via == "wrapper":
-        p["target"] = "none"
-    else:
-        # concrete target: the number of nets (no table is shorter than
-        # that before: the chosen method must run, and can succeed)
-        p["target"] = ("none", "sym", "n")[r % 3]
-        if p["target"] == "n" and method in ("oc", "chain"):
-            # ordered covering stops as soon as the target is met: a target
-            # that the unmerged table meets would switch it off
-            p["target"] = "none"
+    tg = r % 3
+    if torus and nchips > 4:
+        # the tie-breaks of a scattered placement on a 3x3 torus run into
+        # the thousands: explore the first five per mapping
+        p["tb"] = 5
     if placer == "sa" and nchips > 4:
         # shuffling nine chips has 9! outcomes: a real generator instead
         p["rng"] = 1000 + seed
-    if p["target"] == "sym" and method in ("oc", "chain") and \
-            via != "wrapper" and nchips > 1:
-        p["W"] = 2
+    if costly:
+        # ordered covering: the case analysis over the symbolic keys is the
+        # expensive dimension; everything else at its smallest
+        if len(netspec) == 3 or nchips > 4:
+            p["W"] = 2
+        p["dems"] = one_dem
+        p["target"] = ("none", "sym" if nchips == 1 else "sym1", "none")[tg]
+        if p["target"] != "none" and nchips == 1:
+            p["W"] = 2
+        if torus and nchips > 1:
+            p["tb"] = 3
+        if len(netspec) == 2 and p["W"] == 2 and via != "pnr":
+            p["links"] = ("none", "sym")[lk % 2]
+    else:
+        p["dems"] = (0, 1, 2)
+        p["deadchip"] = "any" if nchips > 1 else "none"
+        if via == "pnr":
+            p["links"] = ("none", "one")[lk % 2]
+        else:
+            p["links"] = ("none", "sym", "one")[lk % 3]
+        if method != "none" and via != "wrapper":
+            # concrete target: the number of nets (no table is shorter than
+            # that before: the chosen method must run, and can succeed)
+            p["target"] = ("none", "sym", "n")[tg]
     while _paths(p) > limit:
         if p["links"] == "one":
             p["links"] = "none" if via == "pnr" else "sym"
@@ -845,24 +909,21 @@ def _combo(graph, w, h, torus, placer, method, seed=0, via="hand",
             p["dems"] = one_dem
         elif p["deadchip"] == "any":
             p["deadchip"] = "none"
-        elif p["target"] == "sym" and p["method"] in ("oc", "chain"):
-            p["target"] = "n"
         elif p["links"] == "sym":
             p["links"] = "none"
-        elif p["target"] == "sym":
-            p["target"] = "n"
-        elif p["W"] == 3 and len(netspec) == 3 and \
-                p["method"] in ("oc", "chain"):
-            p["W"] = 2
+        elif p["target"] == "sym" and nchips > 1:
+            p["target"] = "n" if not costly else "none"
         elif (placer in ("rand", "sa") and p["rng"] == "all" and
               p["pin"] < free - 1 and p["pin"] < nchips - 1):
             p["pin"] += 1
-        elif p["W"] == 3 and p["method"] in ("oc", "chain"):
-            p["W"] = 2
+        elif p["torus"] and nchips > 1 and p["tb"] == "all":
+            p["tb"] = 4
         elif placer in ("rand", "sa") and p["rng"] == "all":
             # last resort: one real generator instead of every RNG outcome
             p["rng"] = 1000 + seed
             p["pin"] = min(p["pin"], 1)
+        elif p["W"] == 3 and costly:
+            p["W"] = 2
         else:
             break
     return p
@@ -973,8 +1034,8 @@ def units(tier, seed):
              wit=("mapped", "core-delivery"))
         core("merge", 1, 3, False, "sequential", "chain", cap=2, W=3,
              wit=HOP)
-        core("fan", 2, 2, True, "sequential", "oc", cap=2, W=3, wit=HOP)
-        core("device", 3, 3, False, "hilbert", "chain", cap=2, W=3, wit=HOP)
+        core("fan", 2, 2, False, "sequential", "oc", cap=2, W=3, wit=HOP)
+        core("device", 2, 2, False, "hilbert", "chain", cap=3, W=3, wit=HOP)
     else:
         rnd = _pyrandom.Random(seed)
         rnd.shuffle(grid)
